@@ -18,7 +18,7 @@ CONSTANTS
   NSet, Heights, NrowSet, Strategies, LevelSet, HdrSet, FootSet, SrcSet, PlaceSet,
   TitleSet, SublineSet, NewPageSet, PbRowSet, PbHdrSet, DivSet,
   FontSet, SizeSet, PaperSet, PgHFSet, PFSet, PLSet, BFSet, BLSet, UTSet, UBSet,
-  NDataSet, GPosSet, RelWSet, HdrWSet,
+  NDataSet, GPosSet, RelWSet, HdrWSet, UShapeSet,
   ReserveDefaultHeader,   \* TRUE: auto-populated header row is reserved
   BudgetContinuation,     \* TRUE: continuation headings at the top of a page are budgeted
   ChargeRenderedOnly,     \* TRUE: only headings that are rendered are charged, once
@@ -36,14 +36,14 @@ Cfg0 == [strat |-> "plain", n |-> 0, h |-> <<>>, nlev |-> 1, chg |-> <<>>, schg 
          title |-> FALSE, subline |-> FALSE,
          font |-> 1, size |-> 9, paper |-> "letter", pghf |-> 0,
          pagefirst |-> "double", pagelast |-> "double", bodyfirst |-> "single", bodylast |-> "single",
-         utop |-> "", ubot |-> "", ndata |-> 2, gpos |-> "first", relwk |-> "equal", hdrw |-> FALSE]
+         utop |-> "", ubot |-> "", ndata |-> 2, gpos |-> "first", relwk |-> "equal", hdrw |-> FALSE, ushape |-> "scalar"]
 
 \* change vectors: chg[r] \in 0..nlev is the outermost page_by level that changes at row r
 ChgVecs(n, L) == IF n = 0 THEN {<<>>} ELSE {[r \in 1..n |-> IF r = 1 THEN 1 ELSE f[r]] : f \in [1..n -> 0..L]}
 BoolVecs(n) == IF n = 0 THEN {<<>>} ELSE {[r \in 1..n |-> IF r = 1 THEN TRUE ELSE f[r]] : f \in [1..n -> BOOLEAN]}
 ConstVec(n, v) == [r \in 1..n |-> v]
 
-NDims == 33
+NDims == 34
 Dim(k, c) ==
   CASE k = 1  -> <<"strat", Strategies>>
     [] k = 2  -> <<"n", NSet>>
@@ -78,6 +78,7 @@ Dim(k, c) ==
     [] k = 31 -> <<"gpos", GPosSet>>
     [] k = 32 -> <<"relwk", RelWSet>>
     [] k = 33 -> <<"hdrw", IF c.hdr \in {"explicit", "explicit2"} THEN HdrWSet ELSE {FALSE}>>
+    [] k = 34 -> <<"ushape", IF c.utop # "" \/ c.ubot # "" THEN UShapeSet ELSE {"scalar"}>>
 
 ---------------------------------------------------------------------------
 (* paginate: calculate_row_metadata + _assign_pages, as implemented         *)
